@@ -287,7 +287,8 @@ Proof.
   assert (Hc2 : In (qcell nx i2 j2) (struct_cells nx ny)) by (apply In_struct_cells; exists i2, j2; auto).
   destruct (In_nth_error _ _ Hc2) as [k2 Hk2].
   apply (Hfree k2 _ Hk2).
-  - intros ->. assert (E : qcell nx i0 j0 = qcell nx i2 j2) by congruence. apply qcell_inj in E; lia.
+  - intros ->. assert (E : qcell nx i0 j0 = qcell nx i2 j2) by congruence.
+    destruct (qcell_inj nx i0 j0 i2 j2 Hi Hi2 E) as [E1 E2]. clear - Hne E1 E2. lia.
   - apply (common_side_qcell ct nx i0 j0 _ i sd e Hm Hi). exact Hcs.
 Qed.
 
